@@ -9,6 +9,11 @@ ID=$1; K=$2; TIER=${3:-quick}
 SRC=/tmp/seed_$ID/_seed
 PATCH=$SRC/patch$K.diff
 DEMO=$SRC/seed_${ID}_$K.rs
+if [ ! -f "$PATCH" ]; then      # already filed: re-verify from /verif/seeded
+  PATCH=/verif/seeded/$ID-$K/patch.diff
+  mkdir -p /tmp/sc_demo_$$ && cp /verif/seeded/$ID-$K/demo.rs /tmp/sc_demo_$$/seed_${ID}_$K.rs
+  DEMO=/tmp/sc_demo_$$/seed_${ID}_$K.rs
+fi
 [ -f "$PATCH" ] && [ -f "$DEMO" ] || { echo "missing $PATCH or $DEMO"; exit 2; }
 WT=$(mktemp -d /tmp/sc_XXXXXX); rmdir "$WT"
 git -C /repo worktree add --detach -q "$WT" HEAD || exit 2
@@ -33,7 +38,7 @@ echo "$ID-$K: suite_ok=$SUITE demo_passes_clean=$CLEAN demo_fails_patched=$DEMOF
 echo "   $FIRST"
 [ $RC -eq 2 ] && tail -5 "$EVD/log"
 OUT=/verif/seeded/$ID-$K
-mkdir -p "$OUT" && cp "$PATCH" "$OUT/patch.diff" && cp "$DEMO" "$OUT/demo.rs"
+mkdir -p "$OUT"; [ "$PATCH" = "$OUT/patch.diff" ] || { cp "$PATCH" "$OUT/patch.diff"; cp "$DEMO" "$OUT/demo.rs"; }
 python3 - "$ID" "$K" "$SUITE" "$CLEAN" "$DEMOFAIL" "$RC" "$NV" "$TIER" "$FIRST" <<'PY'
 import json,sys,os
 ID,K,SUITE,CLEAN,DEMOFAIL,RC,NV,TIER,FIRST=sys.argv[1:10]
